@@ -10,7 +10,7 @@ RULE = ("S-syn listings x rules nesting $or/$and/$and_any_order to depth 3 at in
         "start / hit windows. Non-trivial = model finds the rule or one mutation from a found case; distinct = (rule, listing).")
 FLOOR = {"quick": 300, "thorough": 4000}
 ANCHOR_HINTS = ["node_branch_root", "ast_builder", "pattern_node_builder", "deref_classes"]
-REQUIRED_EVENTS = ["hits_located", "law_cases_compared", "wide_any_order_cells", "shared_list_cells"]
+REQUIRED_EVENTS = ["hits_located", "law_cases_compared", "wide_any_order_cells", "shared_list_cells", "capture_alternative_probes"]
 
 
 def feat(rng):
@@ -325,6 +325,30 @@ def shared_list_stratum(ctx, d):
         ctx.event("shared_list_cells")
 
 
+def capture_alternative_probes(ctx, d):
+    """A later occurrence of an instruction / operand capture as one alternative of an $or whose other alternatives are plain single
+    instructions / operands (identical at every seed)."""
+    from jv import dsl, listing as L
+    insts, addr = [], 0x401000
+    for m, ops in [("push", ["%rax"]), ("push", ["%rax"]), ("ret", []), ("push", ["%rbx"]), ("nop", []), ("ret", []), ("push", ["%rcx"]), ("pop", ["%rcx"]), ("ret", []),
+                   ("mov", ["%rax", "%rax"]), ("mov", ["%rax", "%rbx"]), ("mov", ["%rdx", "%rcx"])]:
+        insts.append(L.SInst(addr, m, list(ops), None, None, 2))
+        addr += 2
+    prep = dsl.Prepared(d.ws, insts, ctx.rng)
+    ctx.ran()
+    if not prep.verify(d.ws):
+        ctx.inconc("parser disagreement on synthetic listing")
+        return
+    saved, d.flags = d.flags, "none"
+    d.prep, d.style = prep, "capture-alternative"
+    for pat in (["&i", {"$or": ["&i", "nop"]}, "ret"], ["&i", {"$or": ["nop", "&i"]}, "ret"], ["&i", {"$or": ["&i", "pop"]}, "ret"], ["&j", {"$or": ["&j"]}, "ret"],
+                [{"mov": ["&o", {"$or": ["&o", "%rbx"]}]}], [{"mov": ["&o", {"$or": ["%rcx", "&o"]}]}], [{"mov": ["&p", {"$and_any_order": ["&p"]}]}],
+                ["&k", {"$and_any_order": ["&k", "ret"]}], ["&k", {"$and": ["&k", "ret"]}]):
+        d.run_pattern(pat, "base", True)
+        ctx.event("capture_alternative_probes")
+    d.flags = saved
+
+
 def run_shard(ctx):
     d = drive.Driver(ctx, feat, flags="random", styles=("mixed", "runs", "dups"))
     d.loop(3000, 250000)
@@ -332,6 +356,8 @@ def run_shard(ctx):
     law_stratum(ctx, d, ctx.share(480, 20000))
     wide_any_order_stratum(ctx, d)
     shared_list_stratum(ctx, d)
+    if ctx.shard == 6 % ctx.nshards:
+        capture_alternative_probes(ctx, d)
 
 
 def replay(ctx, case):
